@@ -1091,7 +1091,11 @@ class OdeSystem(object):
                             # the step is rolled back and re-taken up to the event: its interpolant must not stay in the dense output
                             for __rolled_back_interp in (__y_interp if isinstance(__y_interp, list) else [__y_interp]):
                                 self.__sol.remove_interpolant(self.__sol.y_interpolants.index(__rolled_back_interp))
+                            # the step is re-taken up to the event by a nested call, which shortens the working step to get there:
+                            # the step in use before is the one to continue with afterwards
+                            __dt_before_landing = self.dt
                             self.integrate(roots[-1])
+                            self.dt = __dt_before_landing
                             self.__int_status = 2
                         else:
                             if self.counter + len(roots) + 1 >= len(self.__y):
